@@ -60,7 +60,7 @@ Theorem cut_and_reconstruct (ev : list (letter * wt) -> list ct -> nat -> Q) nq 
   length pds = length L ->
   (forall pd, In pd pds ->
      Reconstruct.data_len (snd pd) = length (map fst cq) * length (Reconstruct.pgroups (fst pd))) ->
-  (forall pd, In pd pds -> length (Reconstruct.plookup (fst pd)) = nobs /\ Reconstruct.locs_ok (fst pd)) ->
+  (forall pd, In pd pds -> length (Reconstruct.plookup (fst pd)) = nobs /\ locs_wf (fst pd)) ->
   (forall pd key, In pd pds -> In key (Reconstruct.keys_of (snd pd)) ->
      Reconstruct.outcome_to_int pyint0 key = Some (den key)) ->
   (forall li pd sfx z s k,
@@ -73,4 +73,36 @@ Proof.
   intros Wf Hlen nobs C Ev L term E P1 P23 W cq HW Hcq pyint0 den pds H1 H2 H3 H4 H5.
   apply (reconstructed_transport ev nq nc c ps _ Wf Hlen).
   exact (roundtrip C L nobs term Ev E P1 P23 W cq (move_cuts_kappa c) HW Hcq pyint0 den pds H1 H2 H3 H4 H5).
+Qed.
+
+(* the same through C01's WHOLE-CHAIN theorem (generated_roundtrip = c01_generated_roundtrip_partial): the coefficient
+   list, the projection lists, the result counts/shapes and the exact-results equation are those PRODUCED by the C05
+   model `core` of generate_cutting_experiments and an exact sampler `run`; what remains is the physics, the exact
+   weights and the agreement of the two views of the observable collections *)
+Theorem cut_and_reconstruct_generated (ev : list (letter * wt) -> list ct -> nat -> Q) nq nc c ps :
+  wf_circ nq c = true -> (forall p, In p ps -> length (plets p) = nq) ->
+  let nobs := length ps in
+  let C := move_cuts c in
+  let Ev := fun k => expect ev (denote (nq + count_markers c) nc (cut_wires_moves nq c)) (nth k (expanded nq c ps) pI0) in
+  forall gh gsx env run den table og (W : sdict) out (cq : list (Q * wkind)),
+  Experiments.core gh gsx env C table og W = Ok (out, cq) ->
+  forall (rparts : list Reconstruct.part),
+  Forall2 (fun lg rp => length (Reconstruct.pgroups rp) = length (snd lg)) og rparts ->
+  (forall rp, In rp rparts -> length (Reconstruct.plookup rp) = nobs /\ locs_wf rp) ->
+  forall full, Forall2 (entry_ok gh gsx env table (sort_samples W)) og full ->
+  forall (term : jkey -> nat -> Q) pyint0,
+  (forall k, k < nobs ->
+     (Ev k == sumQ (map (fun ids => (coeff_prod C ids * term ids k)%Q) (all_maps (map (@length Q) C))))%Q) ->
+  (forall ids k, In ids (all_maps (map (@length Q) C)) -> k < nobs ->
+     (term ids k == part_prod (L_of (length C) table og) (E_all gh gsx env run den table og rparts) ids k)%Q) ->
+  exact_weights C W ->
+  (forall pd key, In pd (results_of run rparts full) -> In key (Reconstruct.keys_of (snd pd)) ->
+     Reconstruct.outcome_to_int pyint0 key = Some (den key)) ->
+  Reconstruct.res_Qeq (Reconstruct.reconstruct_parts pyint0 nobs (map fst cq) (results_of run rparts full))
+                      (Ok (map (expect ev (denote nq nc (erase_markers c))) ps)).
+Proof.
+  intros Wf Hlen nobs C Ev gh gsx env run den table og W out cq Hcore rparts Hg Hl full Hfull term pyint0 P1 P23 HW Hkeys.
+  apply (reconstructed_transport ev nq nc c ps _ Wf Hlen).
+  exact (generated_roundtrip gh gsx env run den C table og W out cq Hcore rparts nobs Hg Hl full Hfull term Ev pyint0
+           P1 P23 (move_cuts_kappa c) HW Hkeys).
 Qed.
